@@ -49,12 +49,12 @@ def workloads(tier):
         "canonical-ball": {"driver": "Canonical", "T": 400.0, "cycles": 3, "atoms": gas, "calc": {"kind": "soft"}, "table": [{"name": "d", "move": D(), "interval": 2}, {"name": "b", "move": D("Box"), "probability": 0.5, "min": 1}, {"name": "forced-only", "move": D("Sphere"), "probability": 0.0, "min": 1}]},
         "canonical-composites": {"driver": "Canonical", "T": 900.0, "cycles": 2, "atoms": mols, "calc": {"kind": "soft"}, "table": [{"name": "rot", "move": {"t": "D", "op": {"t": "Rotation"}}}, {"name": "dd", "move": {"t": "*", "part": D("Box", labelmod="gap"), "n": 2}, "probability": 2.0, "criteria": "canonical"}, {"name": "mix", "move": {"t": "+", "parts": [D("Sphere"), {"t": "D", "op": [{"t": "Ball", "step": 0.2}, {"t": "Rotation"}]}], "assoc": "right"}, "interval": 2, "criteria": "canonical"}, {"name": "tr", "move": {"t": "D", "op": {"t": "TranslationRotation"}, "default_label": 0}, "criteria": "runs"}]},
         "hamiltonian": {"driver": "HamiltonianCanonical", "T": 500.0, "cycles": 2, "atoms": {"kind": "gas", "n": 3, "edge": 6.0, "pbc": False, "seed": 5, "extras": ["masses", "momenta"]}, "calc": {"kind": "harmonic", "k": 1.5, "q": 0.5}, "table": [{"name": "h", "move": {"t": "H", "dt": 2.5, "steps": 6}}, {"name": "d", "move": D()}]},
-        "isobaric": {"driver": "Isobaric", "T": 800.0, "P": 0.01, "cycles": 3, "atoms": {**gas, "triclinic": True}, "calc": {"kind": "soft"}, "table": [{"name": "c", "move": {"t": "C", "op": {"t": "Aniso", "mv": 0.05, "mask": mask}, "scale": False}}, {"name": "i", "move": {"t": "C", "op": {"t": "Iso", "mv": 0.04}}}, {"name": "d", "move": D()}]},
+        "isobaric": {"driver": "Isobaric", "ctor_defaults": True, "T": 800.0, "P": 0.01, "cycles": 3, "atoms": {**gas, "triclinic": True}, "calc": {"kind": "soft"}, "table": [{"name": "c", "move": {"t": "C", "op": {"t": "Aniso", "mv": 0.05, "mask": mask}, "scale": False}}, {"name": "i", "move": {"t": "C", "op": {"t": "Iso", "mv": 0.04}}}, {"name": "d", "move": D()}]},
         # steps whose only accepted trials are cell moves that leave the Cartesian positions alone (scale_atoms=False)
         "isobaric-cell-only-steps": {"driver": "Isobaric", "T": 2000.0, "P": 0.005, "cycles": 2, "atoms": {**gas, "triclinic": True}, "calc": {"kind": "soft"}, "table": [{"name": "c", "move": {"t": "C", "op": {"t": "Aniso", "mv": 0.03}, "scale": False}}, {"name": "s", "move": {"t": "C", "op": {"t": "Shape", "mv": 0.03}, "scale": False}, "probability": 0.5}, {"name": "d", "move": D(), "interval": 4}]},
-        "isotension": {"driver": "Isotension", "T": 800.0, "P": 0.01, "S": [[0.01, 0.002, 0], [0.002, 0.0, 0], [0, 0, -0.01]], "cycles": 3, "atoms": gas, "calc": {"kind": "soft"}, "table": [{"name": "c", "move": {"t": "C", "op": {"t": "Shape", "mv": 0.05}}}, {"name": "cd", "move": {"t": "+", "parts": [{"t": "C", "op": {"t": "Iso", "mv": 0.03}}, D("Box")]}, "criteria": "isotension"}, {"name": "d", "move": D("Box")}]},
+        "isotension": {"driver": "Isotension", "T": 800.0, "P": 0.01, "S": [[0.01, 0.002, 0], [-0.001, 0.0, 0.003], [0, 0, -0.01]], "cycles": 3, "atoms": gas, "calc": {"kind": "soft"}, "table": [{"name": "c", "move": {"t": "C", "op": {"t": "Shape", "mv": 0.05}}}, {"name": "cd", "move": {"t": "+", "parts": [{"t": "C", "op": {"t": "Iso", "mv": 0.03}}, D("Box")]}, "criteria": "isotension"}, {"name": "d", "move": D("Box")}]},
         "grand-atomic": {"driver": "GrandCanonical", "T": 1500.0, "mu": -0.05, "cycles": 3, "species": 1, "accessible_volume_fraction": 0.3, "atoms": gas, "calc": {"kind": "soft"}, "table": [{"name": "x", "move": {"t": "E", "bias": 0.6}}, {"name": "d", "move": D(labelmod="gap", default_label=0)}, {"name": "b", "move": D("Box", default_label=-1)}]},
-        "grand-molecular": {"driver": "GrandCanonical", "T": 2500.0, "mu": -0.02, "cycles": 3, "species": 2, "accessible_volume_fraction": 1.7, "atoms": mols, "calc": {"kind": "soft"}, "table": [{"name": "x", "move": {"t": "E", "op": {"t": "TranslationRotation"}, "labelmod": "rev"}}, {"name": "d", "move": {"t": "D", "op": {"t": "TranslationRotation"}}}, {"name": "r", "move": {"t": "D", "op": {"t": "Rotation"}, "labelmod": "someneg"}}]},
+        "grand-molecular": {"driver": "GrandCanonical", "ctor_defaults": True, "T": 2500.0, "mu": -0.02, "cycles": 3, "species": 2, "accessible_volume_fraction": 1.7, "atoms": mols, "calc": {"kind": "soft"}, "table": [{"name": "x", "move": {"t": "E", "op": {"t": "TranslationRotation"}, "labelmod": "rev"}}, {"name": "d", "move": {"t": "D", "op": {"t": "TranslationRotation"}}}, {"name": "r", "move": {"t": "D", "op": {"t": "Rotation"}, "labelmod": "someneg"}}]},
         "grand-composite": {"driver": "GrandCanonical", "T": 2500.0, "mu": 0.05, "cycles": 2, "species": 3, "atoms": mols3, "calc": {"kind": "soft"}, "table": [{"name": "x", "move": {"t": "E", "op": {"t": "TranslationRotation"}, "id": "e0"}}, {"name": "xx", "move": {"t": "*", "part": {"t": "E", "op": {"t": "TranslationRotation"}, "bias": 0.7}, "n": 2, "attrs": {"bias_towards_insert": 0.8}}, "criteria": "random:0.5"}, {"name": "dx", "move": {"t": "+", "parts": [D(), {"t": "E", "op": {"t": "TranslationRotation"}}]}, "criteria": "alternate"}, {"name": "same", "move": {"t": "ref", "id": "e0"}}]},
         "montecarlo-bare": {"driver": "MonteCarlo", "cycles": 2, "atoms": gas, "calc": {"kind": "soft"}, "table": [{"name": "p", "move": {"t": "P"}, "criteria": "random:0.5"}]},
         "forcebias": {"driver": "ForceBias", "T": 300.0, "delta": 0.15, "atoms": {"kind": "mixed", "n": 5, "edge": 8.0, "pbc": False, "seed": 6}, "calc": {"kind": "harmonic", "k": 1.0}},
